@@ -185,19 +185,51 @@ func fullKey(q query, dep string) string { return q.clientKey() + "|sub=" + dep 
 // scripted upstream
 
 type upstream struct {
-	mu    sync.Mutex
-	calls int
-	fills map[string][]*probe // by fullKey
+	mu     sync.Mutex
+	calls  int
+	fills  map[string][]*probe // by fullKey
+	byName map[string]int      // calls by lower-cased question name (also without a probe)
+
+	// wire makes the upstream hand out a message parsed from the wire, like a
+	// real forwarder does.
+	wire bool
 }
 
-func newUpstream() *upstream { return &upstream{fills: map[string][]*probe{}} }
+func newUpstream() *upstream {
+	return &upstream{fills: map[string][]*probe{}, byName: map[string]int{}}
+}
+
+func (u *upstream) callsFor(name string) int {
+	u.mu.Lock()
+	defer u.mu.Unlock()
+	return u.byName[strings.ToLower(name)]
+}
+
+// viaWire packs and unpacks m; if that is impossible m is returned as is.
+func viaWire(m *dns.Msg) *dns.Msg {
+	b, err := m.Pack()
+	if err != nil {
+		return m
+	}
+	out := &dns.Msg{}
+	if err = out.Unpack(b); err != nil {
+		return m
+	}
+	return out
+}
 
 var _ dnsserver.Handler = (*upstream)(nil)
 
 func (u *upstream) ServeDNS(ctx context.Context, rw dnsserver.ResponseWriter, req *dns.Msg) error {
 	start := now()
 	resp, fwd, dep, do := answer(req)
+	if u.wire {
+		resp = viaWire(resp)
+	}
 	p, _ := ctx.Value(probeKey{}).(*probe)
+	u.mu.Lock()
+	u.byName[strings.ToLower(req.Question[0].Name)]++
+	u.mu.Unlock()
 	if p != nil {
 		p.UpCalls++
 		p.UpStart = start
